@@ -17,6 +17,8 @@ class C14(Check):
     pid = "C14"
     title = "Protocols: each step's parameter values hold exactly over its interval"
     rules = {
+        "Q5": "(shared with C04) every simulated step is stored as its own frame together with the parameter record it was computed under, and "
+              "nothing else rewrites the stored result (T3, T8 of C04)",
         "Q4": "(shared with C10) views of a protocol result evaluate every segment under that segment's parameter record (V2, V5 of C10)",
         "Q1": "make_protocol stores each step's values under the time accumulated *including* that step (cumulative end times from 0)",
         "Q2": "in both protocol runners every iteration applies the row's parameter values before simulating, unconditionally, "
@@ -24,7 +26,7 @@ class C14(Check):
         "Q3": "time-course form: protocol index shifted to absolute time, t_start added to the requested points only under the "
               "relative flag, outer join with the step boundaries, half-open selection (t_start, t_end] then t_start := t_end",
     }
-    floors = {"Q4": 4, "Q1": 3, "Q2": 8, "Q3": 4}
+    floors = {"Q4": 4, "Q5": 3, "Q1": 3, "Q2": 8, "Q3": 4}
     decided = [
         "step i's values are applied before, and only before, simulating step i's interval",
         "step intervals are (cumulative end of step i-1, cumulative end of step i] in absolute time, also when continuing an earlier run",
@@ -44,6 +46,7 @@ class C14(Check):
             self.q2(sim, name)
         self.q3(sim)
         self.borrow("C10", ("V2", "V5"), "Q4")
+        self.borrow("C04", ("T3", "T8"), "Q5")
 
     def q1(self, init) -> None:
         fn = init.func("make_protocol")
